@@ -1,9 +1,15 @@
 //! External Kani harness crate: reaches /repo only through its public API.
 #![allow(clippy::all, dead_code, unused_imports, unused_variables, unused_mut)]
 
+include!("build_stamp.rs");
+
 pub mod gen_c08;
 #[cfg(kani)]
 pub mod c08;
+#[cfg(kani)]
+pub mod mk;
+#[cfg(kani)]
+pub mod c11;
 
 /// Counterexample replay (see lib/replay.py): the generated concrete-playback tests.
 #[cfg(all(kani, verif_playback))]
